@@ -22,6 +22,10 @@ func VsymC13_Fencing() {
 		curGen = st.generationID
 	}
 	legit := vsym_And(current, gen == curGen)
+	if who == "" && (st == nil || len(st.members) == 0) {
+		// a member-less commit against a group that has no members is not a "stale member"; outside C13
+		vsym_Assume(false)
+	}
 	switch vsym_Choose("fence-op", 3) {
 	case 0:
 		before := w.commits
